@@ -1,6 +1,123 @@
-(* C08 placeholder while the check plugin is being built; replaced by the real theorems. *)
+(* C08  The live topic state and the stored state never diverge.
+   Theorems only, about the group-topic model Sys/Topic.v (store + cache + handlers +
+   load path), for EVERY history of requests (any length, users, sessions, unloads,
+   restarts, failing/crashing store calls).
+
+   coherent x  :=  while the topic is loaded, the cache equals load (store) on lastID,
+                   delID, owner, default access and per-user want/given/read/recv/delID.
+   inv x       :=  coherent x in its pointwise form + well-formedness of the store (one row
+                   per user, exactly one owner) + "attached sessions act for cached users".
+
+   The faithful model REFUTES the full statement (seven reproduced triggers, findings/C08.md):
+   the full statements are kept as Definitions, refuted with concrete witnesses, and proved
+   under hypotheses that exclude exactly the triggers (safe_step); each excluded hypothesis is
+   shown necessary by a witness that satisfies all the others (c08_trigger_*_needed). *)
 From Coq Require Import ZArith NArith List Bool.
-From Tinode Require Import Base.Util Pure.Acs Sys.Topic.
-Theorem c08_stub : forall s : store, load s = load s.
-Proof. reflexivity. Qed.
-Print Assumptions c08_stub.
+From Tinode Require Import Base.Util Pure.Acs Sys.Topic Sys.TopicTac Sys.TopicFrame Sys.TopicNum Sys.TopicNumThm Sys.TopicInst
+  Sys.TopicCoh Sys.TopicCohProofs Sys.TopicCohStep Sys.TopicCohRun Sys.TopicCohQuery Sys.TopicCohWit.
+Import ListNotations.
+Open Scope Z_scope.
+
+Section C08.
+Variable dr : Z -> list (Z * Z) -> option (list (Z * Z)).   (* any range validator *)
+Variable nr : list (Z * Z) -> list (Z * Z).                 (* any range normaliser *)
+Variable sm : sessmap.                                      (* any assignment of sessions to users *)
+
+(* the initial state (nothing loaded) is coherent; so is a topic straight after the load path ran *)
+Theorem c08_coherent_init : forall s n, coherent (mkState s None n).
+Proof. intros s n. exact I. Qed.
+Theorem c08_coherent_load : forall s n, wf_store s -> inv (mkState s (Some (load s)) n).
+Proof. intros s n W. apply good_inv. apply good_load. exact W. Qed.
+
+(* the invariant implies coherence with the model of the load path *)
+Theorem c08_inv_coherent : forall x, inv x -> coherent x.
+Proof. exact inv_coherent. Qed.
+
+(* ONE STEP, every request kind, every fault plan: the invariant is preserved by every step
+   that is free of the known triggers *)
+Theorem c08_step_coherent_partial : forall f x o,
+  inv x -> inv_num x -> safe_step sm f x o -> inv (fst (step dr nr sm f x o)).
+Proof. exact (step_inv dr nr sm). Qed.
+
+(* ARBITRARY HISTORIES from an empty well-formed topic: coherent after every trigger-free history *)
+Theorem c08_run_coherent_partial : forall s h,
+  wf_store s -> fresh s -> safe_run dr nr sm (mkState s None 0) h ->
+  coherent (fst (run dr nr sm (mkState s None 0) h)).
+Proof.
+  intros s h W F SR. apply inv_coherent. apply run_inv; [split; [exact W|exact I]|apply fresh_inv; exact F|exact SR].
+Qed.
+
+(* RELOAD INVISIBLE: after any trigger-free history, every query (get desc / sub / data / del, from
+   any session, under any fault plan of the query itself) is answered the same whether the topic
+   stayed in memory or its cache was rebuilt by the load path with the same sessions attached *)
+Theorem c08_reload_invisible : forall h x0 f q,
+  inv x0 -> inv_num x0 -> safe_run dr nr sm x0 h -> is_query q = true ->
+  answer dr nr sm f (fst (run dr nr sm x0 h)) q = answer dr nr sm f (reload (fst (run dr nr sm x0 h))) q.
+Proof. exact (run_reload_invisible dr nr sm). Qed.
+
+(* two caches that agree on the stored fields (and have the same sessions) answer every query alike *)
+Theorem c08_query_agree : forall f s c d n q,
+  cache_agree c d -> c_sess c = c_sess d -> is_query q = true ->
+  snd (step dr nr sm f (mkState s (Some c) n) q) = snd (step dr nr sm f (mkState s (Some d) n) q).
+Proof. exact (query_agree dr nr sm). Qed.
+
+(* the idle unload itself (it happens only when no session is attached) is invisible to every
+   query in EVERY state, coherent or not: sessions that are not attached are answered from the store *)
+Theorem c08_unload_invisible : forall f x q,
+  is_query q = true -> answer dr nr sm f (fst (step dr nr sm NoFault x OUnload)) q = answer dr nr sm f x q.
+Proof. exact (unload_invisible dr nr sm). Qed.
+End C08.
+
+(* ------------------------------------------------------------------ *)
+(* the full statement and its refutation *)
+Definition c08_step_coherent_statement : Prop :=
+  forall dr nr sm f x o, inv x -> inv_num x -> known sm o -> coherent (fst (step dr nr sm f x o)).
+
+Theorem c08_step_coherent_refuted : ~ c08_step_coherent_statement.
+Proof.
+  intros H. destruct ref_note_read as [A B C _ _ _ _ D]. apply D. apply (H _ _ _ _ _ _ A B C).
+Qed.
+
+(* each excluded hypothesis is necessary: a reachable state and a request that satisfy all the
+   other hypotheses of c08_step_coherent_partial and end incoherent *)
+Theorem c08_trigger_note_read_needed : exists x f o, refutes 1 x f o.
+Proof. eexists _, _, _. exact ref_note_read. Qed.
+Theorem c08_trigger_readless_publisher_needed : exists x f o, refutes 2 x f o.
+Proof. eexists _, _, _. exact ref_readless_pub. Qed.
+Theorem c08_trigger_offline_setsub_needed : exists x f o, refutes 3 x f o.
+Proof. eexists _, _, _. exact ref_offline_setsub. Qed.
+Theorem c08_fault_publish_seqid_needed : exists x o, refutes 4 x (FailAt 2) o.
+Proof. eexists _, _. exact ref_pub_fail2. Qed.
+Theorem c08_fault_publish_marks_needed : exists x o, refutes 4 x (FailAt 3) o.
+Proof. eexists _, _. exact ref_pub_fail3. Qed.
+Theorem c08_fault_delete_needed : exists x o, refutes 4 x (FailAt 3) o.
+Proof. eexists _, _. exact ref_del_fail3. Qed.
+Theorem c08_fault_owner_transfer_needed : exists x o, refutes 4 x (FailAt 2) o.
+Proof. eexists _, _. exact ref_transfer_fail2. Qed.
+
+Print Assumptions c08_coherent_init.
+Print Assumptions c08_coherent_load.
+Print Assumptions c08_inv_coherent.
+Print Assumptions c08_step_coherent_partial.
+Print Assumptions c08_run_coherent_partial.
+Print Assumptions c08_reload_invisible.
+Print Assumptions c08_query_agree.
+Print Assumptions c08_unload_invisible.
+Print Assumptions c08_step_coherent_refuted.
+Print Assumptions c08_trigger_note_read_needed.
+Print Assumptions c08_trigger_readless_publisher_needed.
+Print Assumptions c08_trigger_offline_setsub_needed.
+Print Assumptions c08_fault_publish_seqid_needed.
+Print Assumptions c08_fault_publish_marks_needed.
+Print Assumptions c08_fault_delete_needed.
+Print Assumptions c08_fault_owner_transfer_needed.
+
+(* non-vacuity: a trigger-free history with accepted mutations (two attach, a publish by a reader,
+   a received note, a soft delete, a permission change by the owner) satisfies safe_run, ends loaded
+   and coherent with lastID = 1 *)
+Example c08_ex_safe :
+  let h := [(NoFault, OSub 1 [] false); (NoFault, OSub 2 [] false); (NoFault, OPub 1 7 false);
+            (NoFault, ONote 2 K_recv 1); (NoFault, ODelMsg 2 [(1, 0)] false); (NoFault, OSetSub 1 2 [74; 82; 87]%N)] in
+  safe_run del_ranges_i norm_ranges_i wit_sm (mkState (wit_store 47 47) None 0) h /\
+  option_map c_lastid (ca (fst (wit_run 47 47 h))) = Some 1.
+Proof. cbv zeta. split; [safe_tac|vm_compute; reflexivity]. Qed.
